@@ -1835,7 +1835,10 @@ func (e *FunctionExpression) MarshalJSON() ([]byte, error) {
 }
 
 func (*FunctionExpression) precedence() expressionPrecedence {
-	return expressionPrecedenceLiteral
+	// NOTE: parenthesize a function expression which is the target of a postfix operator
+	// (invocation, member access, indexing, force unwrap): at the start of a statement,
+	// `fun () {}()` is parsed as a function declaration, not as an expression
+	return expressionPrecedenceUnaryPrefix
 }
 
 // CastingExpression
